@@ -455,6 +455,8 @@ func menu() []item {
 	sp("underfunded-single(+1)", "iii", "fund-single-over")
 	sp("funded-single-exactly", "valid", "fund-single-exact")
 	sp("sender-blocked-by-policy", "iii", "blocked-sender")
+	sp("transaction-of-maximal-size", "valid", "big-max")
+	sp("oversize-transaction(max+1)", "iii", "big-over")
 
 	// ---- encoding -----------------------------------------------------------------------------
 	enc := func(id, want string, f func(c *stateCtx, bb []byte) []byte) {
